@@ -128,7 +128,7 @@ pub enum TNode { Desc(Set<u32>), Split(NodeId, NodeId, VecV) }
 pub struct MetaV { pub dimensions: u32, pub items: Set<u32>, pub roots: Seq<u32>, pub distance: Name }
 
 /// Abstract value stored under a key
-pub enum AVal { Unit, Leaf(LeafV), Tree(TNode), Meta(MetaV), Version(u32, u32, u32) }
+pub enum AVal { Unit, Leaf(LeafV), Tree(TNode), Meta(MetaV), Version(u32, u32, u32), /* v0.4 pending-updates bitmap */ Ids(Set<u32>) }
 
 impl Node {
     pub open spec fn aval(&self) -> AVal {
@@ -223,7 +223,7 @@ pub enum Error {
     NeedBuild(u16),
     BuildCancelled,
     MissingKey { index: u16, mode: NodeMode, item: ItemId },
-    CannotDecodeKeyMode,
+    CannotDecodeKeyMode { mode: NodeMode },
 }
 pub mod heed {
     pub type Error = super::Error;
@@ -403,6 +403,10 @@ impl<DC: DataCodec> DatabaseG<DC> {
                     (old(wtxn).view().contains_key(k) && !range.sel().has(k)))
                 && (final(wtxn).view().contains_key(k) ==> final(wtxn).view()[k] == old(wtxn).view()[k]),
             Err(_) => final(wtxn).view() == old(wtxn).view() }
+    { unimplemented!() }
+    #[verifier::external_body]
+    pub fn clear(&self, wtxn: &mut Txn) -> (r: heed::Result<()>)
+        ensures is_heed(r), r is Ok ==> final(wtxn).view() == Map::<AKey, AVal>::empty(), r is Err ==> final(wtxn).view() == old(wtxn).view()
     { unimplemented!() }
     #[verifier::external_body]
     pub fn len(&self, rtxn: &Txn) -> (r: heed::Result<u64>)
@@ -605,6 +609,13 @@ pub broadcast proof fn axiom_bm_seq(s: Set<u32>)
         (forall|x: u32| s.contains(x) ==> bm_seq(s).contains(x)),
         bm_seq(s).len() == s.len(),
 { admit(); }
+impl IdxIter for RoaringBitmap {
+    open spec fn seq_(&self) -> Seq<u32> { bm_seq(self@) }
+    #[verifier::external_body]
+    fn count_(&self) -> (r: usize) { unimplemented!() }
+    #[verifier::external_body]
+    fn nth_(&self, i: usize) -> (r: u32) { unimplemented!() }
+}
 impl IdxIter for &RoaringBitmap {
     open spec fn seq_(&self) -> Seq<u32> { bm_seq((**self)@) }
     #[verifier::external_body]
